@@ -413,6 +413,11 @@ def run(m: Model, r: Report, tier: str) -> None:
     # the state that is recorded with the following requests: reading the active session is an observation, it changes the tracked state only when it
     # reports another session (a reset on every session read forgets the security level, and every later row is logged with security_access_level null)
     eus = m.require_function(f"{ECU}.ECU.update_state")
+    # (named conditions - `unchanged = new == self.state.session` - are resolved first)
+    from sa.util import subst_locals as _sl11
+    import copy as _cp11
+    eus = _cp11.copy(eus)
+    eus.node = ast.fix_missing_locations(_sl11(eus.node, eus.node, conditions=True))
     rdbi_ifs = [n for n in eus.node.body if isinstance(n, ast.If) and "ReadDataByIdentifierResponse" in ast.unparse(n.test)]
     if len(rdbi_ifs) != 1:
         raise AnalysisError(f"{eus.qualname}: the ReadDataByIdentifier (active session) branch was not found")
@@ -420,8 +425,9 @@ def run(m: Model, r: Report, tier: str) -> None:
     from sa.util import path_condition as _pc11b
     ok_obs = bool(resets_)
     for rc_ in resets_:
-        inner = [(t, p_) for t, p_ in _pc11b(rdbi_ifs[0], rc_) if "self.state.session" in ast.unparse(t)]
-        ok_obs = ok_obs and any((isinstance(t, ast.Compare) and len(t.ops) == 1 and ((isinstance(t.ops[0], ast.NotEq) and p_) or (isinstance(t.ops[0], ast.Eq) and not p_))) for t, p_ in inner)
+        from sa.util import norm_conds as _nc11b
+        # normal form: the reset is reached only under (reported == tracked) being false
+        ok_obs = ok_obs and any("self.state.session" in t and "==" in t and p_ is False for t, p_ in _nc11b(_pc11b(rdbi_ifs[0], rc_)))
     r.check(ok_obs, "R3", f"{eus.qualname}#session-read-is-an-observation", "a reply to the active-session read resets the tracked state although the reported session equals the "
             "tracked one: the security level is forgotten and the rows that follow are recorded with a state the ECU is not in", loc=eus.loc)
 
